@@ -74,7 +74,7 @@ impl IntrinsicBuilder<'_> {
     ) -> Result<Vec<Sp<LowerArg>>, ErrorReported> {
         // full pattern match to fail when new fields are added
         let &IntrinsicInstrAbiParts {
-            num_instr_args, plain_args: ref plain_args_info,
+            num_instr_args, ref padding_indices, plain_args: ref plain_args_info,
             outputs: ref outputs_info, jump: ref jump_info, sub_id: sub_id_info,
         } = abi_parts;
         // check that the caller's 'build' closure put all of the right things for this intrinsic
@@ -85,7 +85,9 @@ impl IntrinsicBuilder<'_> {
 
         // Start with empty options then fill them in.
         // NOTE: This work buffer could be saved between instructions as a minor optimization...
-        let mut out_args = vec![None; num_instr_args];
+        // (the indices in abi_parts count padding, so leave room for it)
+        let num_encodings = num_instr_args + padding_indices.len();
+        let mut out_args = vec![None; num_encodings];
 
         // padding gets added later during args -> bytes conversion so we don't need to fill it
 
@@ -113,8 +115,10 @@ impl IntrinsicBuilder<'_> {
             out_args[index] = Some(var);
         }
 
-        // all options should be Some(_) now
-        Ok(out_args.into_iter().map(|x| x.expect("arg was not filled in! (bug)")).collect::<Vec<_>>())
+        // all options should be Some(_) now, except at the padding
+        Ok(out_args.into_iter().enumerate()
+            .filter(|(index, _)| !padding_indices.contains(index))
+            .map(|(_, x)| x.expect("arg was not filled in! (bug)")).collect::<Vec<_>>())
     }
 }
 
